@@ -32,3 +32,10 @@ package keeper
 //@ ensures [only_authority_starts_minting] err == nil ==> msg.Authority == k.Keeper.authority
 //@ ensures [sets_initialized] err == nil ==> mint.Minter.Initialized && !old(mint.Minter.Initialized)
 //@ ensures [no_change_on_error] err != nil ==> mint.Minter == old(mint.Minter)
+
+// Minting starts only after governance sends MsgInit: genesis leaves the minter uninitialised and without a
+// previous block time, so the first block after MsgInit mints nothing (C03).
+//@ func (k Keeper).InitGenesis(ctx, ak, gen) ()
+//@ requires [genesis_present] gen != nil
+//@ modifies mint.Minter
+//@ ensures [minter_starts_uninitialised_without_a_previous_block_time] has(mint.Minter) && !mint.Minter.Initialized && mint.Minter.PreviousBlockTime == nil && mint.Minter.BondDenom == gen.BondDenom
